@@ -58,4 +58,13 @@ HARNESSES = {
         "bounds": "every IPv6 prefix without host bits, mask 0..=128, every address; loop <= 16 iterations (unwind 18, unwinding assertions on)",
         "timeout": 1200,
     },
+    # ---------------------------------------------------------------- C12
+    "c12_covering_key_v4": {
+        "pkg": "rustybgp-table", "target": "RpkiTable::covering_key (IPv4)", "complete": True,
+        "bounds": "every 32-bit address and length 0..=32; loop of 4 iterations (unwind 6, unwinding assertions on)", "timeout": 600,
+    },
+    "c12_covering_key_v6": {
+        "pkg": "rustybgp-table", "target": "RpkiTable::covering_key (IPv6)", "complete": True,
+        "bounds": "every 128-bit address and length 0..=128; loop of 16 iterations (unwind 18, unwinding assertions on)", "timeout": 900,
+    },
 }
